@@ -524,23 +524,37 @@ pub fn level_of(prop: &str) -> &'static str {
 }
 
 pub fn run_batch(prop: &str, tier: Tier, seed: u64, workers: usize, limit: Option<u64>, quiet: bool) -> Result<(AggOut, f64), String> {
+    run_batch_strided(prop, tier, seed, workers, limit, quiet, 1)
+}
+
+/// `stride > 1`: run indices 0, stride, 2*stride, … (a sample across the whole index space).
+pub fn run_batch_strided(prop: &str, tier: Tier, seed: u64, workers: usize, limit: Option<u64>, quiet: bool, stride: u64) -> Result<(AggOut, f64), String> {
     let t0 = Instant::now();
     // total number of runs: ask a worker-side context (needs the corpus)
-    let total = {
+    let space = {
         let mut ctx = crate::worker::make_ctx(tier, seed)?;
-        let t = crate::worker::total_runs(prop, &mut ctx)?;
-        limit.map_or(t, |l| l.min(t))
+        crate::worker::total_runs(prop, &mut ctx)?
     };
+    let mut chunks = Vec::new();
+    let total;
+    if stride > 1 {
+        let n = limit.unwrap_or(u64::MAX).min((space + stride - 1) / stride);
+        for k in 0..n {
+            chunks.push((k * stride, k * stride + 1));
+        }
+        total = n;
+    } else {
+        total = limit.map_or(space, |l| l.min(space));
+        let chunk = (total / (workers as u64 * 12)).clamp(20, 2000);
+        let mut a = 0;
+        while a < total {
+            let b = (a + chunk).min(total);
+            chunks.push((a, b));
+            a = b;
+        }
+    }
     if total == 0 {
         return Err(format!("{}: nothing to run", prop));
-    }
-    let chunk = (total / (workers as u64 * 12)).clamp(20, 2000);
-    let mut chunks = Vec::new();
-    let mut a = 0;
-    while a < total {
-        let b = (a + chunk).min(total);
-        chunks.push((a, b));
-        a = b;
     }
     chunks.reverse(); // pop() takes from the end: hand out in ascending order
     let queue = Arc::new(Mutex::new(chunks));
@@ -853,7 +867,9 @@ pub fn selftest_determinism(props: &[&str], n: u64) -> i32 {
         for (round, w) in [16usize, 3, 1, 16].iter().enumerate() {
             let seed = 1;
             let lim = if *w == 1 { n.min(400) } else { n };
-            match run_batch(prop, Tier::Quick, seed, *w, Some(lim), true) {
+            // C06's index space starts with thousands of near-identical truncations: sample it
+            let stride = if *prop == "C06" { 37 } else { 1 };
+            match run_batch_strided(prop, Tier::Quick, seed, *w, Some(lim), true, stride) {
                 Ok((out, wall)) => {
                     let d = out.dets().clone();
                     println!("determinism {} round {} workers={} runs={} wall={:.1}s", prop, round, w, d.len(), wall);
